@@ -665,15 +665,20 @@ impl HistGen {
 				include: run.rng.chance(1, 2),
 				readd: run.rng.chance(2, 3),
 			}),
-			11 => Step::new(Op::Scan {
-				w: run.rng.idx(nw),
-				start: if run.rng.chance(1, 2) {
-					None
-				} else {
-					Some(run.rng.range(0, run.ex.world.chain.height()))
-				},
-				del: run.rng.chance(1, 3),
-			}),
+			11 => {
+				let del = run.rng.chance(1, 3);
+				Step::new(Op::Scan {
+					w: run.rng.idx(nw),
+					// avoid list (known finding, C16): a partial-range scan that drops
+					// pending transactions cancels entries whose inputs lie below the range
+					start: if del || run.rng.chance(1, 2) {
+						None
+					} else {
+						Some(run.rng.range(0, run.ex.world.chain.height()))
+					},
+					del,
+				})
+			}
 			12 => Step::new(Op::Node {
 				down: !run.ex.world.chain.is_down(),
 			}),
